@@ -406,7 +406,11 @@ class Spectrum:
             spectrum = self.copy()
             spectrum.to(waveunit)
 
-        interp = scipy.interpolate.interp1d(spectrum.wave, spectrum.value, kind=method,
+        # float tables: scipy only takes its np.interp path for float64/int64
+        # arrays; any other dtype (uint16, float32, ...) goes through a
+        # generic path that returns nan on a one-sample table
+        interp = scipy.interpolate.interp1d(np.asarray(spectrum.wave, dtype=float),
+                                            np.asarray(spectrum.value, dtype=float), kind=method,
                                             copy=False, bounds_error=False,
                                             fill_value=fill_value)
 
